@@ -66,6 +66,10 @@ HUGEKEYS = ["h%04d" % i for i in range(1100)]
 S9 = {"flavor": "int", "kind": "intcountervec", "keys": [], "maxid": 0, "threads": ["t1", "t2"], "budget": 40000, "stable": True,
       "pre": [W(k, 0) for k in HUGEKEYS],
       "scripts": {"t1": [CO, CO], "t2": [W("zz", 1), HI(1, 1), W("aa", 0), HI(0, 2)]}}
+# two simultaneous first requests for one key while a third thread removes ANOTHER child (the number of children is the same before
+# and after): both requests must still get the same child
+S10 = {"flavor": "int", "kind": "intcountervec", "keys": ["k", "f"], "maxid": 4, "threads": ["t1", "t2", "t3"], "pre": [W("f", 0)],
+       "scripts": {"t1": [W("k"), HI(0, 1)], "t2": [W("k"), HI(0, 2)], "t3": [RM("f"), CO]}}
 INVS = "LockSafety OneChildPerKey FreshHandleIsCurrent IdsBounded"
 
 
@@ -193,6 +197,7 @@ def run(ctx):
         run_scenario(ctx, exe, S3, "S3", stats, samples, nrandom=100, kinds=["countervec"])
         run_scenario(ctx, exe, S6, "S6", stats, samples, nrandom=300, kinds=["intcountervec"])
         run_scenario(ctx, exe, S8, "S8", stats, samples, model=False, check=False, nrandom=40, kinds=["intcountervec"], pb=(2, 40))
+        run_scenario(ctx, exe, S10, "S10", stats, samples, model=False, check=False, nrandom=200, kinds=["intcountervec"], pb=(2, 500))
         run_scenario(ctx, exe, S9, "S9", stats, samples, model=False, check=False, nrandom=6, kinds=["intcountervec"], pb=(1, 24))
         # composition: a vector of HISTOGRAMS (children are sharded histograms, updates are observe calls)
         run_scenario(ctx, exe, S2, "S2h", stats, samples, model=False, check=False, nrandom=150, kinds=["histogramvec"])
@@ -200,6 +205,7 @@ def run(ctx):
         for sc, lb in ((S1, "S1h"), (S2, "S2h"), (S3, "S3h"), (S6, "S6h")):
             run_scenario(ctx, exe, sc, lb, stats, samples, model=False, check=False, nrandom=3000, kinds=["histogramvec"])
         run_scenario(ctx, exe, S8, "S8", stats, samples, model=False, check=False, nrandom=1500, kinds=["intcountervec", "countervec"], pb=(2, 1500))
+        run_scenario(ctx, exe, S10, "S10", stats, samples, model=False, check=False, nrandom=5000, kinds=["intcountervec", "countervec"], pb=(3, 20000))
         run_scenario(ctx, exe, S9, "S9", stats, samples, model=False, check=False, nrandom=100, kinds=["intcountervec", "countervec"], pb=(2, 600))
         run_scenario(ctx, exe, S6, "S6", stats, samples, nrandom=3000, kinds=["intcountervec", "countervec"])
         run_scenario(ctx, exe, S7, "S7", stats, samples, model=False, nrandom=10000, kinds=["intcountervec"])
